@@ -172,6 +172,24 @@ def check_value(acc, spec, how=None):
                     acc.failure("C10:width_at_offset_after_concatenation", {"f": shown, "op": "f + %r" % extra, "n": k}, "f:%r g:%r h:%r" % (f.width_at_offset(k), g.width_at_offset(k), h.width_at_offset(k)))
                     break
         acc.transitions += 3
+        # siblings: several values extended from the same measured f stay apart - each is measured at every offset only after
+        # all of them exist (and once more after yet another one was built from the first sibling)
+        sibs = [(label, mk(f), ws) for label, mk, ws in (
+            ("f + 'q'", lambda x: x + "q", widths + [1]), ("f + 'Ｅ̀'", lambda x: x + "Ｅ̀", widths + [2, 0]), ("f + ''", lambda x: x + "", widths),
+            ("f + f", lambda x: x + x, widths + widths), ("'Ｅ' + f", lambda x: "Ｅ" + x, [2] + widths), ("f + 'ab'", lambda x: x + "ab", widths + [1, 1]),
+        )]
+        for rnd in (0, 1):
+            for label, g, ws in sibs + [("f", f, widths)]:
+                for k in range(0, len(ws) + 2):
+                    acc.transitions += 1
+                    got = g.width_at_offset(k)
+                    if got != sum(ws[:k]):
+                        acc.failure("C10:width_at_offset_of_sibling", {"f": shown, "op": "%s, measured after its siblings were built from the same f" % label, "n": k}, "got %r expected %r" % (got, sum(ws[:k])))
+                        break
+                if g.width != sum(ws):
+                    acc.failure("C10:width_of_sibling", {"f": shown, "op": label}, "got %r expected %r" % (g.width, sum(ws)))
+            sibs[0][1] + "ＥＥ"
+            f + "Ｅ"
     except Exception as ex:  # noqa
         acc.failure("C10:width_after_concatenation_raises:" + type(ex).__name__, {"f": shown}, repr(ex))
     if C.snapshot(f) != snap:
